@@ -165,7 +165,14 @@ func cmdCheck(argv []string) int {
 			pkgSet[l.PkgPath] = true
 		}
 	}
-	if len(keys) == 0 && len(lemmas) == 0 {
+	nSweeps := 0
+	for _, sw := range cs.Sweeps {
+		if hasProp(sw.Con.Props, *prop) {
+			pkgSet[sw.PkgPath] = true
+			nSweeps++
+		}
+	}
+	if len(keys) == 0 && len(lemmas) == 0 && nSweeps == 0 {
 		fmt.Printf("UNDECIDED property=%s reason=no contracts carry this property\n", *prop)
 		return 2
 	}
@@ -181,6 +188,13 @@ func cmdCheck(argv []string) int {
 		fmt.Printf("UNDECIDED property=%s reason=load: %v\n", *prop, strings.ReplaceAll(err.Error(), "\n", " | "))
 		return 2
 	}
+	// functions brought under contract by a sweep are known only now
+	for k, c := range cs.Funcs {
+		if c.Swept && hasProp(c.Props, *prop) && (*only == "" || strings.Contains(k, *only)) {
+			keys = append(keys, k)
+		}
+	}
+	sort.Strings(keys)
 	loadS := time.Since(start).Seconds()
 
 	var all []*Obligation
@@ -421,6 +435,9 @@ func cmdCheck(argv []string) int {
 	for _, o := range failed {
 		os.MkdirAll(replayDir, 0755)
 		path := filepath.Join(replayDir, sanitize(o.Name)+".json")
+		if c := ctxs[o.Func]; c != nil {
+			restoreGlobals(c)
+		}
 		confirmed := writeReplay(P, o, *prop, path, execs[o.Func])
 		suffix := ""
 		if !confirmed {
